@@ -3,6 +3,7 @@
 from __future__ import annotations
 
 import ast
+from fractions import Fraction as Fr
 
 from vf import alg, catalog
 from vf.alg import Poly, as_poly
@@ -24,6 +25,31 @@ def _super_init_keywords(cls):
         if isinstance(n, ast.Call) and isinstance(n.func, ast.Attribute) and n.func.attr == "__init__" and isinstance(n.func.value, ast.Call) and getattr(n.func.value.func, "id", "") == "super":
             return n.keywords
     return []
+
+
+def _zero_symbol_indicators(code):
+    """indicator atoms 1{q == 0} whose q involves nothing but the linear symbol and dt"""
+    out = set()
+    for e in code.data:
+        for a in as_poly(e).all_atoms():
+            if a[0] == "ind" and a[1] == "eq":
+                q = a[2] - a[3]
+                ats = q.all_atoms()
+                if ats and all(b == LAM or (b[0] == "s" and b[1] == "dt") for b in ats) and LAM in ats:
+                    out.add(a)
+    return sorted(out, key=repr)
+
+
+def _limit_at_zero(f):
+    """f(0) of a closed form with a removable singularity at 0, from the exact power series of the specification"""
+    old = SP.Ser.DEG
+    SP.Ser.DEG = old + 4
+    try:
+        z = SP.Ser.z()
+        ser = f(z, SP._exp_series(z), SP._exp_series(z * Fr(1, 2)))
+        return ser.d.get((0, 0), Fr(0))
+    finally:
+        SP.Ser.DEG = old
 
 
 def _angle_over_pi(e):
@@ -138,6 +164,16 @@ def run(tier="quick", only_key=None):
             what = "coefficient differs from dt * contour mean of the closed form"
             if isinstance(code, Tens) and any(a[0] == "Re" for e in code.data for a in e.all_atoms()):
                 what = "coefficient keeps only the REAL PART of the contour mean: wrong for a complex linear symbol (advection/dispersion)"
+            zero_inds = _zero_symbol_indicators(code) if isinstance(code, Tens) else []
+            if zero_inds:
+                # the constructor distinguishes modes whose symbol is exactly zero: elsewhere the contour mean, there the
+                # exact value of the closed form at z = 0 (its removable singularity), i.e. dt * f(0) from the power series
+                lim = _limit_at_zero(f)
+                off = Tens(code.shape, [alg.subs(e, {a: Poly() for a in zero_inds}) for e in code.data])
+                on = Tens(code.shape, [alg.subs(alg.subs(e, {a: Poly.const(1) for a in zero_inds}), {LAM: Poly()}) for e in code.data])
+                ck.compare("coef-form", key + "#symbol!=0", at, off, ref, what=what)
+                ck.compare("coef-form", key + "#symbol==0", at, on, Tens(code.shape, [DT * Poly.const(lim)]), what=f"at a zero symbol the coefficient must be dt * f(0) = dt * {lim} (limit of the closed form)")
+                continue
             ck.compare("coef-form", key, at, code, ref, what=what)
         # extra coefficient fields the spec does not know
         for fld in obj.f:
